@@ -143,8 +143,9 @@ class InterpBase(object):
         for cname, (mod, cd) in repo.classes.items():
             for meth in cd["methods"].values():
                 for node in ast.walk(meth.node):
-                    if isinstance(node, ast.Assign) and len(node.targets) == 1:
-                        t = node.targets[0]
+                    if isinstance(node, ast.Assign):
+                        subs = [x for x in node.targets if isinstance(x, ast.Subscript)]
+                        t = subs[0] if len(subs) == 1 else None
                         if isinstance(t, ast.Subscript) and \
                                 isinstance(t.value, ast.Attribute) and \
                                 isinstance(t.value.value, ast.Name) and \
